@@ -75,6 +75,11 @@ TOJSON = [
     '{"tojson":{"x":1}}', '{"toJSON ":{"x":1}}', '{"\\u0074oJSON":{"x":1}}', '{"TOJSON":[1]}', '{"toJSON":{"x":1},"toString":{"y":2},"valueOf":[3]}',
     '[{"toJSON":[1]},{"toJSON":{"a":2}},{"toJSON":3}]', '{"x":[{"toJSON":{"toJSON":[{"a":{"toJSON":{}}}]}}]}',
 ]
+# texts walked with the revivers that restructure their holder (length read once, key list taken once)
+LENTEXTS = [
+    '[1,2,3]', '[1,2]', '[1]', '[]', '[["a","b"],"c"]', '[[1,2,3],[4,5]]', '{"a":[1,2,3],"b":[4]}', '[{"a":1},{"b":2},3]', '[1,[2,[3,4]]]',
+    '{"a":1,"b":2,"c":3}', '{"a":{"a":1,"b":2},"b":[1,2]}', '[[[1,2],3],4]', '[null,true,"s",{}]', '{"b":[1,2,3,4]}',
+]
 # alphabet of the mutations: { } [ ] , : " \ 0 1 - + . e E u t n a space TAB ' / U+0001
 ALPHA = '{}[],:"\\01-+.eEutna \t\'/\x01'
 
@@ -95,6 +100,7 @@ seq("ExtraHeavyTexts", [s for s in EXTRA if heavy(s)])
 seq("SurrTexts", SURR)
 seq("ReviveTexts", REVIVE)
 seq("ToJSONTexts", TOJSON)
+seq("LenTexts", LENTEXTS)
 out.append("MutAlphabet == %s" % tup(ALPHA))
 out.append("S_iso_epoch == %s" % tup("1970-01-01T00:00:00.000Z"))
 out.append("====")
